@@ -87,8 +87,10 @@ def gen_actions(rng):
                                                    'upgrade', 'close'])])
         elif k < 0.63:
             acts.append(['disc', s])
-        elif k < 0.68:
+        elif k < 0.66:
             acts.append(['wsclose', s])
+        elif k < 0.68:
+            acts.append(['wsbreak', s])
         elif k < 0.72:
             acts.append(['vanish', s])
         elif k < 0.80:
@@ -161,7 +163,7 @@ class Side:
             return
         s = R.S[a[1]]
         if (s.n in self.silent or s.n in self.timed) and op in (
-                'poll', 'up', 'upgrade', 'wsclose', 'vanish', 'weird',
+                'poll', 'up', 'upgrade', 'wsclose', 'wsbreak', 'vanish', 'weird',
                 'upgstep', 'send', 'disc'):
             if s.n in self.silent and op in ('send', 'disc'):
                 pass            # the application does not know it yet
@@ -262,6 +264,11 @@ class Side:
         elif op == 'wsclose':
             if s.mode == 'websocket':
                 R.ws_close(s, 'close')
+        elif op == 'wsbreak':
+            # the server's writes on the established socket fail from now on;
+            # when each server notices depends on its next write (heartbeat)
+            if s.mode == 'websocket' and R.ws_break(s):
+                self.silent.add(s.n)
         elif op == 'vanish':
             R.vanish(s)
             self.silent.add(s.n)
